@@ -235,7 +235,10 @@ class CaseResult:
     nontrivial: whether the case counts as non-trivial under the property's rule
     """
 
+    last = None      # the result object of the case that is running (see safe_run_case)
+
     def __init__(self):
+        CaseResult.last = self
         self.steps = []
         self.oracle = []
         self.tags = set()
@@ -295,9 +298,16 @@ def safe_run_case(mod, c):
     """run one case; an adapter crash is reported, never hidden. An exception that comes out of the implementation in a
     call the adapter makes unconditionally (valid by construction, never raising on the pinned tree) is a behaviour of
     the implementation (clause implementation-raised), anything else is a harness defect (clause harness-error)."""
+    CaseResult.last = None
     try:
         return mod.run_case(c)
     except Exception:  # noqa
+        partial = CaseResult.last
+        if partial is not None and partial.oracle:
+            # the oracle had already failed when the adapter crashed (typically on the broken value it had just reported):
+            # the failure stands; the crash is recorded after it and dropped by check.py
+            partial.fail("harness-error", traceback.format_exc()[-1500:])
+            return partial
         r = CaseResult()
         frames = traceback.extract_tb(sys.exc_info()[2])
         try:
